@@ -380,6 +380,8 @@ def P_lockstep(ctx, lib, b, paths):
         else:
             bt_reset = [e for e in flagged]
             ctx.ob(rule, "no-choice-no-push", not flagged, where=b.where(), expected="heuristic = None pushes nothing flagged", found=len(flagged))
+            # (what happens after a None proposal is not an obligation: the property's heuristics always propose a statement, and the built-in ones are asked
+            # only when an undecided statement exists - that arm is dead code under the property's premises)
     ctx.floor(rule, "choice paths", n_choice, 1)
     # pop loop: flagged entry => history pop + leave pop loop
     n_pop = 0
@@ -407,6 +409,25 @@ def P_lockstep(ctx, lib, b, paths):
             ok = len(emp) == 1 and emp[0] is True or bool(pop_none(p))
             ctx.ob(rule, "return-iff-stack-empty-on-backtrack", ok, where=b.where(), expected="leave the search loop only when backtracking with an empty stack", found=p.describe()[:240])
     P_exhaust(ctx, lib, b, paths)
+    # a nogood conflict reported by the closure requests backtracking (otherwise the same state is examined again for ever)
+    try:
+        variants = [v["name"] for v in lib.adt("nogoods::ClosureResult")["variants"]]
+        inc = variants.index("Inconsistent")
+    except (LookupError, ValueError) as e:
+        ctx.lost(rule, "ClosureResult::Inconsistent", str(e))
+        return
+    k = 0
+    for p in paths:
+        cc = [(deep_strip(unloop(e)), v) for e, v in p.cond if deep_strip(unloop(e))[0] == "app" and deep_strip(unloop(e))[1] == "discr"
+              and is_call(deep_strip(deep_strip(unloop(e))[2][0]), "NoGoodStore::conclusion_closure")]
+        if not cc or int_of(cc[0][1]) != inc:
+            continue
+        k += 1
+        sends = [e for e in p.effects if e.get("kind") == "call" and flow.fname(e["resolved"]) == "Sender::send"]
+        bt = named_backtrack(b, p, paths)
+        ctx.ob(rule, "closure-inconsistent-backtracks", bt == symx.vbool(True) and not sends and p.end == "backedge", where=b.where(), expected="Inconsistent: backtrack = true; continue",
+               found="backtrack %s; %s" % (symx.show(bt) if bt else None, p.describe()[:160]))
+    ctx.floor(rule, "paths on which the closure reports a conflict", k, 1)
 
 
 def emptiness(e, v):
@@ -607,6 +628,87 @@ def modes(ctx, lib):
         ctx.lost(rule, "stable_nogood_get_vec", str(e))
 
 
+def F_updflag(ctx, lib):
+    rule = "C05.F-updflag"
+    ctx.rule(rule, "update_interpretation_fixpoint_upd: *update is false when nothing changed (written false before the loop) and true on the path on which the propagation step "
+                   "differs from the current interpretation; the comparison is between the step result and the loop-carried current interpretation, which is what is returned "
+                   "(the search loop sends a model only in a round without update: a flag that stays false lets unpropagated interpretations through)")
+    try:
+        b = lib.one("adf::Adf::update_interpretation_fixpoint_upd")
+    except LookupError as e:
+        ctx.lost(rule, "update_interpretation_fixpoint_upd", str(e))
+        return
+    eng = ctx.engine([lib], no_inline={"adf_bdd::adf::Adf::update_interpretation"})
+    st = symx.State()
+    UPD = st.new_cell(("sym", "upd0"))
+    paths = eng.summarise(b, [shared.ref_to(st, ("sym", "adf")), shared.ref_to(st, ("sym", "interp")), ("ref", UPD, ())], st)
+    kinds = set()
+    for p in paths:
+        eqs = [(deep_strip(e), v) for e, v in p.cond if deep_strip(e)[0] == "app" and deep_strip(e)[1] in ("Eq", "Ne")]
+        step_cmp = [(e, v) for e, v in eqs if symx.contains(e, lambda n_: is_call(n_, "Adf::update_interpretation")) and symx.contains(e, lambda n_: n_[0] == "loopvar")]
+        if len(step_cmp) != 1:
+            ctx.cannot(rule, "step-comparison", "one comparison of the step result with the current interpretation per round", b.where(), p.describe()[:200])
+            continue
+        e, v = step_cmp[0]
+        same = (int_of(v) == 1) == (e[1] == "Eq")
+        flag = p.state.cells.get(UPD)
+        if same:
+            kinds.add("unchanged")
+            ok = p.end == "return" and flag == symx.vbool(False) and deep_strip(p.ret)[0] == "loopvar"
+            ctx.ob(rule, "unchanged: flag false, current returned", ok, where=b.where(), expected="*update = false before the loop; return cur_int", found="flag %s, %s" % (symx.show(flag), p.describe()[:160]))
+        else:
+            kinds.add("changed")
+            ok = p.end == "backedge" and flag == symx.vbool(True)
+            ctx.ob(rule, "changed: flag true", ok, where=b.where(), expected="*update = true and another round", found="flag %s, %s" % (symx.show(flag), p.describe()[:160]))
+    ctx.ob(rule, "cases", kinds == {"unchanged", "changed"}, where=b.where(), expected="changed / unchanged paths", found=sorted(kinds))
+
+
+def T_acconflict(ctx, lib, b, paths):
+    rule = "C05.T-acconflict"
+    ctx.rule(rule, "nogood_internal backtracks when the current interpretation contradicts what the acceptance conditions evaluate to under it: the test is `any` over "
+                   "zip(cur_interpr, apply_interpretation(self.ac, cur_interpr)) of the table conflict(cur, ac) <=> both are truth values and differ; on the conflict path "
+                   "backtracking is requested and nothing is sent")
+    roles, _ = flow.closure_roles(b)
+    n = 0
+    for c in lib.closures_of(b):
+        r = roles.get(c.path)
+        if r is None or r.adaptor not in ("any", "all"):
+            continue
+        src, steps = r.receiver_chain()
+        names = [s_[0] for s_ in steps]
+        if "zip" not in names:
+            continue
+        n += 1
+        ctx.ob(rule, "adaptor", r.adaptor == "any", where=c.where(), expected="any", found=r.adaptor)
+        # operands of the zip: cur_interpr and apply_interpretation(.., cur_interpr)
+        zc = [s_ for s_ in steps if s_[0] == "zip"][0]
+        other = zc[1][0] if zc[1] else None
+        ok_ops = other is not None and bool(flow.find(other, lambda n_: n_[0] == "call" and flow.fname(n_[1]) == "Adf::apply_interpretation"))
+        ctx.ob(rule, "operands", ok_ops, where=c.where(), expected="cur_interpr.iter().zip(apply_interpretation(&self.ac, &cur_interpr).iter())", found=flow.show(other)[:160] if other else None)
+        eng = ctx.engine([lib])
+        for cur in shared.CLASSES:
+            for ac in shared.CLASSES:
+                st = symx.State()
+                env = eng.closure_env(st, c, [])
+                item = ("tuple", (shared.ref_to(st, shared.term(cur)), shared.ref_to(st, shared.term(ac))))
+                got = set(p_.ret if p_.end == "return" else ("end", p_.end) for p_ in eng.summarise(c, [env, item], st))
+                want = cur in ("B", "T") and ac in ("B", "T") and cur != ac
+                ctx.ob(rule, "conflict[cur=%s,ac=%s]" % (cur, ac), got == {symx.vbool(want)}, where=c.where(), expected=want, found=sorted(symx.show(x) for x in got))
+    ctx.floor(rule, "acceptance-condition conflict tests", n, 1)
+    # the conflict path requests backtracking and sends nothing
+    k = 0
+    for p in paths:
+        anyc = [(deep_strip(unloop(e)), v) for e, v in p.cond if deep_strip(unloop(e))[0] == "app" and flow.last(str(deep_strip(unloop(e))[1])) == "any"
+                and symx.contains(deep_strip(unloop(e)), lambda n_: n_[0] == "app" and flow.last(str(n_[1])) == "zip")]
+        if not anyc or int_of(anyc[0][1]) != 1:
+            continue
+        k += 1
+        sends = [e for e in p.effects if e.get("kind") == "call" and flow.fname(e["resolved"]) == "Sender::send"]
+        bt = named_backtrack(b, p, paths)
+        ctx.ob(rule, "conflict-path-backtracks", bt == symx.vbool(True) and not sends and p.end == "backedge", where=b.where(), expected="backtrack = true; continue", found=p.describe()[:200])
+    ctx.floor(rule, "conflict paths", k, 1)
+
+
 def check(ctx):
     for cfg in configs(ctx.tier):
         ctx.cfg = cfg.name
@@ -619,6 +721,8 @@ def check(ctx):
             b, paths = r
             P_lockstep(ctx, lib, b, paths)
             P_sender(ctx, lib, b, paths)
+            T_acconflict(ctx, lib, b, paths)
+        F_updflag(ctx, lib)
         modes(ctx, lib)
         rule = "S.X-exhaust"
         ctx.rule(rule, "the result channel of stable_nogood_get_vec is drained by an exhaustive consumer")
